@@ -243,3 +243,93 @@ oracle_proof!(c07_editor_metadata_colors, 28, editor_metadata_colors_lines());
 oracle_proof!(c07_events_break, 28, events_line());
 // @verif property=C07 tier=quick timeout=1200 mem=16 bounds="Beatmap::from(BeatmapState) with every numeric / flag field of General, Difficulty, Editor, Metadata and the version symbolic; two arbitrary breaks (order kept); empty object / control-point lists"
 oracle_proof!(c07_conversions, 16, conversions());
+
+/// A timing-point line: Beatmap, HitObjects and TimingPoints decoders leave the same pending
+/// group behind (observed through the hook) and agree on acceptance.
+fn timing_line() {
+    use rosu_map::section::timing_points::{DifficultyPoint, EffectPoint, SamplePoint, TimingPoint};
+    stubs::seed_f64(b'b');
+    let line = tok_line("10,$b");
+    let mut full = BeatmapState::create(14);
+    let mut ho = <HitObjects as DecodeBeatmap>::State::create(14);
+    let mut tp = <TimingPoints as DecodeBeatmap>::State::create(14);
+    let r1 = Beatmap::parse_timing_points(&mut full, line);
+    let r2 = HitObjects::parse_timing_points(&mut ho, line);
+    let r3 = TimingPoints::parse_timing_points(&mut tp, line);
+    assert!(r1.is_ok() == r3.is_ok() && r2.is_ok() == r3.is_ok());
+    let a = tp_hooks::state_parts(&full.hit_objects.timing_points);
+    let b = tp_hooks::state_parts(&ho.timing_points);
+    let c = tp_hooks::state_parts(&tp);
+    let same_t = |x: &Option<TimingPoint>, y: &Option<TimingPoint>| match (x, y) {
+        (None, None) => true,
+        (Some(x), Some(y)) => x.time.to_bits() == y.time.to_bits() && x.beat_len.to_bits() == y.beat_len.to_bits() && x.omit_first_bar_line == y.omit_first_bar_line && x.time_signature == y.time_signature,
+        _ => false,
+    };
+    let same_d = |x: &Option<DifficultyPoint>, y: &Option<DifficultyPoint>| match (x, y) {
+        (None, None) => true,
+        (Some(x), Some(y)) => x.slider_velocity.to_bits() == y.slider_velocity.to_bits() && x.generate_ticks == y.generate_ticks,
+        _ => false,
+    };
+    let same_e = |x: &Option<EffectPoint>, y: &Option<EffectPoint>| match (x, y) {
+        (None, None) => true,
+        (Some(x), Some(y)) => x.scroll_speed.to_bits() == y.scroll_speed.to_bits() && x.kiai == y.kiai,
+        _ => false,
+    };
+    let same_s = |x: &Option<SamplePoint>, y: &Option<SamplePoint>| match (x, y) {
+        (None, None) => true,
+        (Some(x), Some(y)) => x.sample_bank == y.sample_bank && x.sample_volume == y.sample_volume && x.custom_sample_bank == y.custom_sample_bank,
+        _ => false,
+    };
+    assert!(same_t(a.pending_timing_point, c.pending_timing_point) && same_t(b.pending_timing_point, c.pending_timing_point));
+    assert!(same_d(a.pending_difficulty_point, c.pending_difficulty_point) && same_d(b.pending_difficulty_point, c.pending_difficulty_point));
+    assert!(same_e(a.pending_effect_point, c.pending_effect_point) && same_e(b.pending_effect_point, c.pending_effect_point));
+    assert!(same_s(a.pending_sample_point, c.pending_sample_point) && same_s(b.pending_sample_point, c.pending_sample_point));
+    assert!(a.pending_control_points_time.to_bits() == c.pending_control_points_time.to_bits());
+    // a decoder that does not own the section ignores the line
+    let mut ge = <General as DecodeBeatmap>::State::create(14);
+    assert!(General::parse_timing_points(&mut ge, line).is_ok() && same_general(&ge, &General::default()));
+    kani::cover!(r3.is_ok() && c.pending_timing_point.is_some(), "timing point pending in all three");
+    kani::cover!(r3.is_err(), "line rejected by all three");
+    core::mem::forget((full, ho, tp, ge));
+}
+
+/// A circle line: Beatmap and HitObjects decoders store the same object.
+fn hit_object_line() {
+    use rosu_map::section::hit_objects::HitObjectKind;
+    stubs::seed_f32(b'a');
+    stubs::seed_f32(b'b');
+    stubs::seed_f64(b'c');
+    let ty = stubs::seed_i32(b'd');
+    if let Some(t) = ty {
+        kani::assume(t & 1 != 0);
+    }
+    let line = tok_line("$a,$b,$c,$d,2");
+    let mut full = BeatmapState::create(14);
+    let mut ho = <HitObjects as DecodeBeatmap>::State::create(14);
+    let r1 = Beatmap::parse_hit_objects(&mut full, line);
+    let r2 = HitObjects::parse_hit_objects(&mut ho, line);
+    assert!(r1.is_ok() == r2.is_ok());
+    assert!(full.hit_objects.hit_objects.len() == ho.hit_objects.len());
+    if ho.hit_objects.len() == 1 {
+        let (x, y) = (&full.hit_objects.hit_objects[0], &ho.hit_objects[0]);
+        assert!(x.start_time.to_bits() == y.start_time.to_bits() && x.samples.len() == y.samples.len());
+        match (&x.kind, &y.kind) {
+            (HitObjectKind::Circle(p), HitObjectKind::Circle(q)) => {
+                assert!(p.pos.x.to_bits() == q.pos.x.to_bits() && p.pos.y.to_bits() == q.pos.y.to_bits());
+                assert!(p.new_combo == q.new_combo && p.combo_offset == q.combo_offset);
+            }
+            _ => panic!("kinds differ"),
+        }
+        kani::cover!(true, "circle stored by both");
+    }
+    // decoders that do not own the section ignore the line
+    let mut ev = <Events as DecodeBeatmap>::State::create(14);
+    assert!(Events::parse_hit_objects(&mut ev, line).is_ok() && ev.breaks.is_empty() && ev.background_file.is_empty());
+    kani::cover!(r2.is_err(), "line rejected by both");
+    core::mem::forget((full, ho, ev));
+}
+
+// @verif property=C07 tier=quick timeout=1500 mem=24 bounds="timing line '10,$b' (beat length every f64 / error) through Beatmap / HitObjects / TimingPoints: equal acceptance and equal pending group; General ignores it"
+oracle_proof!(c07_timing_line, 32, timing_line());
+// @verif property=C07 tier=quick timeout=1500 mem=24 bounds="circle line '$a,$b,$c,$d,2' through Beatmap / HitObjects: equal acceptance and equal stored object; Events ignores it"
+oracle_proof!(c07_hit_object_line, 32, hit_object_line());
